@@ -220,7 +220,8 @@ type Atom uint64
 // NewAtom interns the given string and returns an Atom.
 func NewAtom(name string) Atom {
 	// A one-char atom is just a rune.
-	if r, n := utf8.DecodeLastRuneInString(name); r != utf8.RuneError && n == len(name) {
+	// (A decoding error is reported as U+FFFD with a size of 1; the character U+FFFD itself takes 3 bytes.)
+	if r, n := utf8.DecodeLastRuneInString(name); n == len(name) && (r != utf8.RuneError || n == 3) {
 		return Atom(r)
 	}
 
